@@ -247,6 +247,41 @@ pub fn exec(func: &str, a: &mut Args) -> String {
             let vs: VoxelSet = vol.into();
             format!("{} {} {} {} {} {}", ni, nj, nk, d3::fp(&vs.origin), ff(scale), g)
         }
+        // acd2 / hulls2 <maxhulls> <res> <fill2> <concavity> <plane_ds> <hull_ds> <np> pts <ne> edges: the real 2-D VHACD
+        // (parry2d-f64) on the real 2-D voxelization.
+        //   acd2   → origin scale n (i j s)* ndec (0 | 1 a b d)* ;; nparts (n (i j s)*)*     (decisions recorded by verif_tap)
+        //   hulls2 → origin scale nparts (n (i j s)*)* nhulls (m pts)*                        (compute_convex_hulls(1))
+        "acd2" | "hulls2" => {
+            use crate::p2::transformation::vhacd::{VHACDParameters as Par2, VHACD as Vh2, verif_tap as tap2};
+            use crate::p2::transformation::voxelization::VoxelSet as VS2;
+            let maxh = a.u() as u32; let res = a.u() as u32; let fm = a.u(); let conc = a.f();
+            let pds = a.u() as u32; let hds = a.u() as u32;
+            let np = a.u(); let pts: Vec<_> = (0..np).map(|_| d2::p(a)).collect();
+            let ne = a.u(); let idx: Vec<[u32; 2]> = (0..ne).map(|_| [a.u() as u32, a.u() as u32]).collect();
+            let vox = VS2::voxelize(&pts, &idx, res, fill2(fm), false);
+            let mut params = Par2::default();
+            params.max_convex_hulls = maxh; params.resolution = res; params.fill_mode = fill2(fm); params.concavity = conc;
+            params.plane_downsampling = pds; params.convex_hull_downsampling = hds;
+            let fv2 = |v: &VS2| { let mut s = format!("{}", v.voxels().len());
+                for x in v.voxels() { s.push_str(&format!(" {} {} {}", x.coords.x, x.coords.y, b(x.is_on_surface))); } s };
+            let pre = format!("{} {} {}", d2::fp(&vox.origin), ff(vox.scale), fv2(&vox));
+            let _ = tap2::take();
+            let vh = Vh2::from_voxels(&params, vox);
+            let dec = tap2::take();
+            let mut ps = format!("{}", vh.voxel_parts().len());
+            for p in vh.voxel_parts() { ps.push(' '); ps.push_str(&fv2(p)); }
+            if func == "acd2" {
+                let mut ds = format!("{}", dec.len());
+                for d in &dec { match d { None => ds.push_str(" 0"), Some((abc, dd)) => ds.push_str(&format!(" 1 {} {}", d2::fv(abc), ff(*dd))) } }
+                format!("{} {} ;; {}", pre, ds, ps)
+            } else {
+                let (o, sc) = vh.voxel_parts().get(0).map(|p| (p.origin, p.scale)).unwrap_or((d2::Point::origin(), 1.0));
+                let hulls = vh.compute_convex_hulls(1);
+                let mut s = format!("{} {} {} {}", d2::fp(&o), ff(sc), ps, hulls.len());
+                for h in &hulls { s.push_str(&format!(" {}", h.len())); for p in h { s.push(' '); s.push_str(&d2::fp(p)); } }
+                s
+            }
+        }
         // vox3map <res> <fm> <mesh> → VoxelSet::voxelize(.., keep_voxel_to_primitives_map = true):
         //   origin scale n (i j k s)* map (len prim*)*   one list per surface voxel, in voxel order | .. nomap
         "vox3map" => {
@@ -826,6 +861,22 @@ pub fn gen(r: &mut Rng, thorough: bool) -> Vec<(String, String)> {
         v.push(("vox3map".into(), format!("{} {} {}", res, fm, hmesh(&m))));
     }
     if std::env::var("VERIF_FAMILIES").is_ok() { eprintln!("C18 vox3map families: {:?}", famm); }
+    // ---- 2-D VHACD (parry2d-f64): decomposition replay + hulls of the parts ----
+    let na2 = if thorough { 480 } else { 96 };
+    for it in 0..na2 {
+        let lat = it % 2 == 0;
+        let poly = if it % 3 == 2 { gen_tie_poly2(r, lat) } else { gen_poly2(r, lat) };
+        let n = poly.len();
+        let res = *r.pick(if thorough { &[8u32, 16, 21, 32, 50, 64][..] } else { &[8u32, 16, 21, 32][..] });
+        let fm = [1, 1, 0, 3, 1, 2][(it / 2) % 6];
+        let maxh = *r.pick(&[1u32, 2, 3, 4, 5, 6, 8, 16]);
+        let conc = *r.pick(&[0.0005, 0.005, 0.05, 0.2]);
+        let pds = *r.pick(&[1u32, 2, 4]); let hds = *r.pick(&[1u32, 2, 4]);
+        let args = format!("{} {} {} {} {} {} {} {} {} {}", maxh, res, fm, hx(conc), pds, hds, n, poly.iter().map(d2::hp).collect::<Vec<_>>().join(" "), n,
+            (0..n).map(|i| format!("{} {}", i, (i + 1) % n)).collect::<Vec<_>>().join(" "));
+        v.push(("acd2".into(), args.clone()));
+        if it % 2 == 0 { v.push(("hulls2".into(), args)); }
+    }
     v
 }
 
